@@ -1,7 +1,7 @@
 (* Props/C11.v — property C11: 1-D linkage clustering follows its stated threshold rule.
    Only statements, each closed by `exact`, with its assumptions printed. *)
 From Coq Require Import List Arith Bool Reals PrimFloat.
-From Knee Require Import Num NumFloat NumR NpList Model.Clustering Proofs.ClusteringFacts.
+From Knee Require Import Num NumFloat NumR NpList Model.Clustering Proofs.ClusteringFacts Proofs.ClusteringMonoFloat.
 Import ListNotations.
 
 (* Tier S (every Num, hence binary64 with every rounding / NaN / overflow): on a non-empty array each linkage
@@ -48,6 +48,17 @@ Theorem C11_single_complete_monotone : forall (lk : linkage) (xs : list R) (t t'
 Proof. exact single_complete_monotone. Qed.
 Print Assumptions C11_single_complete_monotone.
 
+(* Tier O on binary64 itself (not only over the reals): for EVERY array of doubles — no ordering hypothesis, every rounding of the
+   gaps and of the x range, NaN / inf / zero range included — and every pair of doubles with t <= t' (as the primitive comparison,
+   which excludes NaN thresholds), single linkage produces at most as many clusters at t' as at t.  The gap of point i does not
+   depend on t, and on doubles  t <= t' /\ t' <= d  implies  t <= d  (FloatOrder.float_total_preorder). *)
+Theorem C11_single_monotone_float : forall (xs : list float) (t t' : float) lab lab',
+  PrimFloat.leb t t' = true ->
+  @linkage_labels FloatNum Single xs t = Some lab -> @linkage_labels FloatNum Single xs t' = Some lab' ->
+  nclusters lab' <= nclusters lab.
+Proof. exact single_monotone_float. Qed.
+Print Assumptions C11_single_monotone_float.
+
 (* non-vacuity: x range 12.5; the complete-linkage distance of the last point to its anchor (x = 10) is exactly 0.2:
    at t = 0.2 it starts a cluster (>=), at the next double above 0.2 it does not; the average-linkage distance of
    point 3 is exactly 0.16 and t = 0.16 splits there; the predicate accepts the model's labels and rejects others *)
@@ -68,3 +79,9 @@ Proof. vm_compute. repeat split. Qed.
 (* the hypotheses of the monotonicity theorem are satisfiable *)
 Example C11_example_incr : incrR [0; 1; 3; 4]%R /\ 2 <= length [0; 1; 3; 4]%R.
 Proof. cbn. repeat split; try Lra.lra; Lia.lia. Qed.
+(* the hypotheses of the binary64 monotonicity theorem are satisfiable, with a strict decrease *)
+Example C11_example_mono_float :
+  PrimFloat.leb 0.16%float 0.2%float = true /\
+  nclusters [0; 0; 0; 0; 1; 1; 1] = 2 /\
+  @linkage_labels FloatNum Single ex_xs 0.6%float = Some [0; 0; 0; 0; 0; 0; 0].
+Proof. vm_compute. repeat split. Qed.
